@@ -143,8 +143,18 @@ macro_rules! pow_forms {
 }
 
 fn big_big(sa: bool, a: &[u64], sb: bool, b: &[u64]) -> Verdict {
-    let (x, y) = (bi(sa, a), bi(sb, b));
-    let (ux, uy) = (bu(a), bu(b));
+    let (mut x, mut y) = (bi(sa, a), bi(sb, b));
+    let (mut ux, mut uy) = (bu(a), bu(b));
+    // in a third of the cases one operand (or both) carries spare capacity from an earlier, larger value, so that
+    // buffer-reuse choices made by capacity differ from the length order
+    let slack = a.first().map_or(0, |d| d % 3) + 2 * b.first().map_or(0, |d| (d >> 1) % 2);
+    if slack & 1 == 1 {
+        x <<= 900u32; x >>= 900u32; ux <<= 900u32; ux >>= 900u32;
+    }
+    if slack & 2 == 2 {
+        y <<= 900u32; y >>= 900u32; uy <<= 900u32; uy >>= 900u32;
+    }
+    let (x, y, ux, uy) = (x, y, ux, uy);
     FORMS.with(|f| {
         f.borrow_mut().insert("BigInt {+,-,*,/,%,&,|,^} x {val,ref}^2 + op-assign(val,ref)");
         f.borrow_mut().insert("BigUint {+,-,*,/,%,&,|,^} x {val,ref}^2 + op-assign(val,ref)");
@@ -352,7 +362,7 @@ impl Property for C10 {
         let big = || prop_oneof![60 => gen::nat(3), 25 => gen::nat(1), 15 => gen::nat(9)];
         prop_oneof![
             20 => (any::<bool>(), big(), any::<bool>(), big()).prop_map(|(sa, a, sb, b)| Case::new("bigbig", vec![Arg::Z(sa, a), Arg::Z(sb, b)])),
-            5 => (any::<bool>(), gen::addsub_pair(8)).prop_map(|(s, (a, b))| Case::new("bigbig", vec![Arg::Z(s, a), Arg::Z(s, b)])),
+            5 => (any::<bool>(), any::<bool>(), gen::addsub_pair(8)).prop_map(|(sa, sb, (a, b))| Case::new("bigbig", vec![Arg::Z(sa, a), Arg::Z(sb, b)])),
             45 => (any::<bool>(), big(), gen::scalar_i128()).prop_map(|(sa, a, s)| Case::new("scalar", vec![Arg::Z(sa, a), Arg::I(s)])),
             // |big| close to |scalar|: a = |s| + d
             10 => (any::<bool>(), gen::scalar_i128(), -2i128..=2).prop_map(|(sa, s, d)| {
